@@ -1065,8 +1065,10 @@ def oracle(case, obs):
 # =====================================================================================
 # shared: generator pieces
 # =====================================================================================
-OW_CHOICES = {1: [[1.0]], 2: [[1, 1], [1, 3], [3, 1], [5, 3], [1, 7], [1, 0], [0, 1]],
-              3: [[1, 1, 2], [2, 1, 1], [1, 2, 1], [1, 4, 3], [3, 0, 1], [5, 2, 1]]}
+# negative entries are valid (a maximised objective): normalisation only needs a positive sum; "worst" is then the
+# largest WEIGHTED value, i.e. the smallest raw value of that objective (seeded change C04_c)
+OW_CHOICES = {1: [[1.0]], 2: [[1, 1], [1, 3], [3, 1], [5, 3], [1, 7], [1, 0], [0, 1], [3, -1], [-1, 3], [5, -3]],
+              3: [[1, 1, 2], [2, 1, 1], [1, 2, 1], [1, 4, 3], [3, 0, 1], [5, 2, 1], [3, -1, 2], [-1, 4, 1], [2, 3, -1]]}
 RW_POOL = [0, 0, 1, 1, 2, 3, 4, 5, 6, 7]
 
 
